@@ -232,6 +232,12 @@ namespace hv
             GraphExecutorBuilder eb;
             Observer obs;
             bool wired{false};
+            // option gctx=1: wiring, make_executor and run happen inside a GlobalContext selected on this thread (the
+            // documented testing / lower() usage): the build fixes the seed from the live state, every run works on its own
+            // isolation copy and its final state is copied back to the live state at run end
+            bool use_gctx{false};
+            std::unique_ptr<GlobalState> live;
+            std::unique_ptr<GlobalContext> gctx;
         };
 
         // parse options + tables, wire the program (single-threaded; uses the wiring-time global g_sc)
@@ -257,6 +263,7 @@ namespace hv
                     if (st.has("repeat")) job.repeat = static_cast<int>(st.geti("repeat"));
                     if (st.has("log_ne")) job.log_ne = st.geti("log_ne") != 0;
                     if (st.has("max_immediate")) job.max_imm = static_cast<std::uint32_t>(st.geti("max_immediate"));
+                    if (st.has("gctx")) job.use_gctx = st.geti("gctx") != 0;
                 }
                 else if (k == "script")
                 {   // script <id> off:val,off:val
@@ -281,6 +288,13 @@ namespace hv
                 }
             }
             job.obs.log_node_eval = job.log_ne;
+            if (job.use_gctx)
+            {
+                job.live = std::make_unique<GlobalState>();
+                for (auto &st : sc.stmts)
+                    if (st.tok[0] == "gs") job.live->view().set(st.tok.at(1), Value{Int{std::stoll(st.tok.at(2))}});
+                job.gctx = std::make_unique<GlobalContext>(*job.live);
+            }
             GraphBuilder gb;
             try
             {
@@ -294,8 +308,8 @@ namespace hv
             log_builder(gb);
             for (auto &st : sc.stmts)
             {
-                if (st.tok[0] == "gs")
-                {   // gs <key> <int>: seed the builder's GlobalState
+                if (st.tok[0] == "gs" && !job.use_gctx)
+                {   // gs <key> <int>: seed the builder's GlobalState (with gctx the live state was seeded before wiring)
                     gb.global_state().set(st.tok.at(1), Value{Int{std::stoll(st.tok.at(2))}});
                 }
             }
@@ -338,6 +352,7 @@ namespace hv
                         Line("ran").str("run", "threw").str("what", e.what()).emit();
                     }
                     dump_global_state(ex.view().graph().global_state());
+                    if (job.use_gctx) job.live->view().copy_from(ex.view().graph().global_state());   // results copy back at run end
                     Line("release").emit();
                 }
                 Line("released").emit();
